@@ -143,7 +143,9 @@ def run(ctx: Ctx) -> None:
         for n in f.own_nodes():
             if isinstance(n, ast.Call):
                 d = prog.dotted(f, n.func) or ""
-                if d in NONDET or d.startswith("random.") or d.startswith("time."):
+                from . import sigflow
+                c_ = sigflow.classify_node(ctx, f, n)
+                if d in NONDET or d.startswith("random.") or d.startswith("time.") or (c_ is not None and c_[0] == "process"):
                     nond.append(f"{f.loc(n)}: {unparse(n, 50)}")
     # module-level mutable mappings read or written with the hashed value as key
     for name, sts in mod.assigns.items():
